@@ -875,4 +875,16 @@ func runC11Share(r *Run, rng *Rng, replay string) {
 	c11shFixed(r, rng, g, "shootdown, then flush and copies", []string{"s", "h", "t", "xu 1", "au 0", "t", "xa 1", "aa 0", "t", "q",
 		"xc 4", "a 3", "a 0", "a 1", "a 0", "T 4", "q", "xl 1", "al 0", "t", "xr 2", "f", "d", "t", "q"})
 	c11shFixed(r, rng, g, "flush, then shootdown", []string{"f", "h", "t", "xc 4", "a 0", "a 0", "a 0", "a 0", "T 4", "xr 1", "s", "t", "q"})
+	// the guard of processCacheFlushRsp: with shootDownInProcess the last cache acknowledgement is NOT held
+	// back by a full ToDriver (one-entry ToDriver that still holds a copy's answer); the
+	// ShootdownCompleteRsp then meets the full buffer and is lost (unchecked Send)
+	g1 := g
+	g1.cdrv = 1
+	c11shFixed(r, rng, g1, "shootdown's last cache acknowledgement while ToDriver is full",
+		[]string{"h", "t", "xd 1", "r 0", "t", "s", "t", "xu 1", "au 0", "t", "xa 1", "aa 0", "t", "q", "xc 9", "a 0", "a 0", "a 0", "a 0",
+			"T 4", "q", "xl 1", "al 0", "t", "q", "xr 9"})
+	// the same with the driver taking the copy's answer in time: the shootdown completes
+	c11shFixed(r, rng, g1, "shootdown with a one-entry ToDriver, answers taken in time",
+		[]string{"h", "t", "xd 1", "r 0", "t", "s", "t", "xu 1", "au 0", "t", "xa 1", "aa 0", "t", "xc 9", "a 0", "a 0", "a 0", "a 0",
+			"T 4", "xr 1", "xl 1", "al 0", "t", "q", "xr 9", "f", "t", "xc 9", "a 1", "a 0", "a 0", "t", "a 0", "t", "t", "q"})
 }
